@@ -16,6 +16,12 @@ FIXED = ["CC(=O)Cl.CCO.CCO>>CC(=O)OCC.CCO", "CC(=O)OC.CCO.CCO>>CC(=O)OCC.CO.CCO"
          "CCI.CC[O-].[Na+]>>CCOCC", "c1ccc2ccccc2c1Br.N>>c1ccc2ccccc2c1N", "ClCCl.N.N>>NCN", "CC(C)Br.[N-]=[N+]=[N-]>>CC(C)N=[N+]=[N-]"]
 
 
+# reagents the rule-based stage recognises by their text ([Na], [K], [Li], [H-]): hydride deprotonations, metal reductions
+HYDRIDE = ["CCO.[Na+].[H-]>>CC[O-].[Na+]", "CC(C)O.[K+].[H-]>>CC(C)[O-].[K+]", "c1ccccc1O.[Li+].[H-]>>c1ccccc1[O-].[Li+]",
+           "CC(=O)CC(C)=O.[Na+].[H-]>>CC(=O)[CH-]C(C)=O.[Na+]", "CCS.[Na+].[H-]>>CC[S-].[Na+]", "[Na].CCO>>CC[O-].[Na+]",
+           "[K].CO>>C[O-].[K+]", "[Li].CCO>>CC[O-].[Li+]", "CC#C.[Na+].[NH2-]>>CC#[C-].[Na+].N"]
+
+
 def stereo_free(s):
     return not any(ch in s for ch in "@/\\")
 
@@ -85,7 +91,7 @@ def run(tier):
     # these very strings as its own markers, see C02)
     tied = [s for s in gen.tied_completions(400, random.Random(common.seed()))
             if "[H]" not in s.replace("[H][H]", "") and "[O]" not in s.replace("[O-]", "")]
-    base = FIXED + tied + corpus.sample(pool, 70 if tier == "quick" else 900, rng)
+    base = FIXED + HYDRIDE + tied + corpus.sample(pool, 70 if tier == "quick" else 900, rng)
     seen = set()
     base = [s for s in base if oracle.reaction_facts(s)["parses"] and not (s in seen or seen.add(s))]
     modes = ["canonical", "perm", "random", "kekule", "mapped", "random"] if tier == "quick" else \
@@ -102,14 +108,22 @@ def run(tier):
     order = list(range(len(inputs)))
     rng.shuffle(order)
     plan = {"runs": [{"name": "spellings", "inputs": [inputs[j] for j in order], "n_jobs": 16, "threshold": 0}]}
+    # the same families with atom-map removal switched off (Balancer.remove_aam = False): the rule-based stage then
+    # sees the mapped spellings themselves
+    keep = [j for j in order if fam_of[j] < len(FIXED) + len(HYDRIDE)]
+    plan["runs"].append({"name": "spellings_keep_maps", "inputs": [inputs[j] for j in keep], "n_jobs": 16, "threshold": 0,
+                         "remove_aam": False})
     pf = os.path.join(wd, "plan.json")
     with open(pf, "w") as f:
         json.dump(plan, f)
     lg = os.path.join(wd, "run.ndjson")
     common.run_driver("drv_pipeline", [pf, lg], timeout=4 * 3600)
-    rows = [e for e in common.read_ndjson(lg) if e["ev"] == "row"]
-    if len(rows) != len(inputs):
-        raise common.MachineryError("pipeline returned %d rows for %d valid inputs" % (len(rows), len(inputs)))
+    allrows = [e for e in common.read_ndjson(lg) if e["ev"] == "row"]
+    rows = [e for e in allrows if e["run"] == 1]
+    rows2 = [e for e in allrows if e["run"] == 2]
+    if len(rows) != len(inputs) or len(rows2) != len(keep):
+        raise common.MachineryError("pipeline returned %d + %d rows for %d + %d valid inputs" % (len(rows), len(rows2),
+                                                                                              len(inputs), len(keep)))
     with open(lg + ".mols.json") as f:
         mols = json.load(f)
     by_input = {}
@@ -118,6 +132,10 @@ def run(tier):
     fams = {}
     for j, k in enumerate(fam_of):
         fams.setdefault(k, []).append(by_input[j])
+    # families of the run that keeps the maps are numbered after the others
+    nf = max(fam_of) + 1
+    for j, e in zip(keep, rows2):
+        fams.setdefault(nf + fam_of[j], []).append(e)
     events = []
     for k in sorted(fams):
         mem = []
